@@ -71,7 +71,7 @@ func runC03(c *core.Ctx) {
 	ruleReaderConstruction(c)
 
 	// exact consumption rests on the contract of the retry loop and on its callers keeping it
-	c.Doc("C03.readn", "ReadN: nil only when complete, fragments accumulated at the right offset; every call passes the length of the buffer it fills", 10)
+	c.Doc("C03.readn", "ReadN: nil only when complete, fragments accumulated at the right offset; every call passes the length of the buffer it fills", 6)
 	ruleReadNComplete(c, "C03.readn")
 	ruleReadNCalls(c, newDecoderSet(c), "C03.readn")
 	c.Doc("C03.limits", "size-limit comparisons accept the limit itself (encoder/decoder/reader agree)", 5)
